@@ -86,7 +86,7 @@ M.pop("C13_without_shrink_forwards")
 M.pop("C07_link_before_success")
 
 def sh(cmd, **kw):
-    return subprocess.run(cmd, shell=True, text=True, stdout=subprocess.PIPE, stderr=subprocess.STDOUT, **kw)
+    return subprocess.run(cmd, shell=True, text=True, errors="replace", stdout=subprocess.PIPE, stderr=subprocess.STDOUT, **kw)
 
 def setup():
     shutil.rmtree(WORK, ignore_errors=True)
